@@ -292,6 +292,23 @@ func S[T any, V any](ch chan<- T, v0 V) *Case[T] {
 	return &Case[T]{send: true, ch: reflect.ValueOf(ch), val: reflect.ValueOf(&v).Elem()}
 }
 
+// PreferClosedRecv resolves select nondeterminism in favour of a ready receive on a closed, empty channel
+// (a cancelled context's Done channel): scenarios use it to ask whether a stop request CAN win against
+// pending input, i.e. whether the code leaves that choice to select at all.
+var PreferClosedRecv bool
+
+func preferred(r *registry, cases []caseI, ws []*waiter, rd []int) int {
+	if !PreferClosedRecv {
+		return -1
+	}
+	for k, i := range rd {
+		if !cases[i].isSend() && r.closed[ws[i].ptr] && cases[i].chanV().Len() == 0 && len(r.stash[ws[i].ptr]) == 0 {
+			return k
+		}
+	}
+	return -1
+}
+
 // Select performs a select over cases; returns the index of the case that fired or -1 for default.
 func Select(hasDefault bool, cases ...caseI) int {
 	if !vsched.Active() {
@@ -379,6 +396,9 @@ func Select(hasDefault bool, cases ...caseI) int {
 	}
 	if alt >= len(rd) {
 		alt = len(rd) - 1
+	}
+	if k := preferred(r, cases, ws, rd); k >= 0 {
+		alt = k
 	}
 	i := rd[alt]
 	c := cases[i]
